@@ -206,6 +206,58 @@ fn op_c15(a: &[&str]) -> String {
 pub fn run_op3(op: &str, a: &[&str]) -> Option<String> {
     match op {
         "c15" => Some(op_c15(a)),
+        // scopes <n> : the example's work splitter
+        "scopes" => {
+            let n: u32 = a[0].parse().unwrap();
+            Some(match guarded(|| crate::scope::calculate_scopes(n)) {
+                None => "panic".to_string(),
+                Some(v) => {
+                    let t: Vec<String> = v.iter().map(|s| format!("{},{},{},{}", s.turn_from, s.river_from, s.turn_to, s.river_to)).collect();
+                    format!("ok {}", t.join(" ")).trim_end().to_string()
+                }
+            })
+        }
+        // scopes_e2e <n> : per-scope showdown counts and win tallies of the real evaluator add up to the unscoped run
+        "scopes_e2e" => {
+            let n: u32 = a[0].parse().unwrap();
+            Some(match guarded(|| {
+                let board = [Some(card_of(5)), Some(card_of(22)), Some(card_of(47)), None, None];
+                let players: Vec<HandRange> = vec![HandRange::from_str("AKs,QQ:0.5,7d2c").unwrap(), HandRange::from_str("JTs:0.25,9h9s,AcKc").unwrap()];
+                let tally = |ev: espada::evaluator::FlopExhaustiveEvaluator| -> (u64, u64, u64) {
+                    let (mut n, mut w0, mut ties) = (0u64, 0u64, 0u64);
+                    for sd in ev {
+                        n += 1;
+                        if sd.players()[0].is_winner() {
+                            w0 += 1;
+                        }
+                        if sd.winner_len() > 1 {
+                            ties += 1;
+                        }
+                    }
+                    (n, w0, ties)
+                };
+                let full = tally(espada::evaluator::FlopExhaustiveEvaluator::new(&board, &players));
+                let mut sum = (0u64, 0u64, 0u64);
+                for s in crate::scope::calculate_scopes(n) {
+                    let mut ev = espada::evaluator::FlopExhaustiveEvaluator::new(&board, &players);
+                    ev.scope(s.turn_from, s.river_from, s.turn_to, s.river_to);
+                    // like the example, a panicking worker contributes nothing
+                    if let Some(t) = guarded(|| tally(ev)) {
+                        sum = (sum.0 + t.0, sum.1 + t.1, sum.2 + t.2);
+                    }
+                }
+                (full, sum)
+            }) {
+                None => "panic".to_string(),
+                Some((full, sum)) => {
+                    if full == sum {
+                        "ok e2e=1".to_string()
+                    } else {
+                        format!("ok e2e=0 full={:?} sum={:?}", full, sum)
+                    }
+                }
+            })
+        }
         "parse_token" => {
             let s = unhex_str(a[0]);
             Some(match guarded(|| HandRangeToken::from_str(&s)) {
